@@ -34,7 +34,7 @@ Fixpoint check_from (p : proto) (s : sstate) (ops : list op) (obs : list (res * 
   | o :: r, (x, ann, post) :: t =>
       let '(s1, (y, ann')) := step p s o in
       res_eqb x y && listN_eqb ann ann' &&
-      match op_thread s o with Some th => N.eqb post (cur p s1 th) | None => true end &&
+      match op_thread p s o with Some th => N.eqb post (cur p s1 th) | None => true end &&
       check_from p s1 r t
   | _, _ => false
   end.
